@@ -418,11 +418,19 @@ func (ty *ArrayType) Assignable(other ExprType) bool {
 func (ty *ArrayType) Merge(other ExprType) ExprType {
 	switch other := other.(type) {
 	case *ArrayType:
+		// When one of the element types is unknown, the merged type must not be stricter than both of them. Property
+		// dereference is allowed when it is allowed for one of them.
 		if _, ok := ty.Elem.(AnyType); ok {
-			return ty
+			if ty.Deref || !other.Deref {
+				return ty
+			}
+			return &ArrayType{Elem: AnyType{}, Deref: true}
 		}
 		if _, ok := other.Elem.(AnyType); ok {
-			return other
+			if other.Deref || !ty.Deref {
+				return other
+			}
+			return &ArrayType{Elem: AnyType{}, Deref: true}
 		}
 		return &ArrayType{
 			Elem:  ty.Elem.Merge(other.Elem),
